@@ -30,14 +30,17 @@ theorem chunkFilename_inj {p : String} {i j : Nat} (h : chunkFilename p i = chun
 
 /-! ### closed form of the saver -/
 
-/-- the chunk_info entry written for chunk `c` saved as number `i` -/
-def infoFor (pfx : String) (i : Nat) (c : Chunk) : ChunkInfo :=
-  if c.rows.isEmpty then chunkInfoOf i c
-  else { chunkInfoOf i c with filename := some (chunkFilename pfx i) }
+/-- the chunk_info entry written for chunk `c` saved as number `i`; `exec` = the write went to an
+executor (then no `filesize` is known when the entry is written) -/
+def infoFor (hdr : Header) (exec : Bool) (i : Nat) (c : Chunk) : ChunkInfo :=
+  if c.rows.isEmpty then chunkInfoOf hdr.itemsize i c
+  else if exec then { chunkInfoOf hdr.itemsize i c with filename := some (chunkFilename hdr.pfx i) }
+  else { chunkInfoOf hdr.itemsize i c with filename := some (chunkFilename hdr.pfx i),
+                                            filesize := some (blobSize c.rows).val }
 
-def infosFrom (pfx : String) : Nat → List Chunk → List ChunkInfo
+def infosFrom (hdr : Header) (exec : Bool) : Nat → List Chunk → List ChunkInfo
   | _, [] => []
-  | i, c :: cs => infoFor pfx i c :: infosFrom pfx (i + 1) cs
+  | i, c :: cs => infoFor hdr exec i c :: infosFrom hdr exec (i + 1) cs
 
 /-- the files written for chunks numbered from `i` on: one per non-empty chunk -/
 def filesFrom (pfx : String) : Nat → List Chunk → Files
@@ -53,10 +56,11 @@ def startAfter (s : Option Int) : Nat → List Chunk → Option Int
 
 /-- saver state after saving `cs` as numbers `i, i+1, …` -/
 def after (sv : Saver) (i : Nat) (cs : List Chunk) : Saver :=
-  { md := { sv.md with chunks := sv.md.chunks ++ infosFrom sv.md.hdr.pfx i cs,
+  { sv with
+    md := { sv.md with chunks := sv.md.chunks ++ infosFrom sv.md.hdr sv.exec i cs,
                        start := startAfter sv.md.start i cs },
-    files := sv.files ++ filesFrom sv.md.hdr.pfx i cs,
-    closed := sv.closed }
+    files := if sv.exec then sv.files else sv.files ++ filesFrom sv.md.hdr.pfx i cs,
+    pending := if sv.exec then sv.pending ++ filesFrom sv.md.hdr.pfx i cs else sv.pending }
 
 /-- every file present so far belongs to a chunk number below `i` -/
 def NamesBelow (pfx : String) (i : Nat) (fs : Files) : Prop :=
@@ -93,18 +97,25 @@ theorem namesBelow_filesFrom (pfx : String) (cs : List Chunk) :
 theorem namesBelow_after {sv : Saver} {i : Nat} (h : NamesBelow sv.md.hdr.pfx i sv.files) (cs : List Chunk) :
     NamesBelow (after sv i cs).md.hdr.pfx (i + cs.length) (after sv i cs).files := by
   intro p hp
-  simp only [after, List.mem_append] at hp
-  rcases hp with hp | hp
-  · obtain ⟨j, hj, hn⟩ := h p hp
+  cases hx : sv.exec with
+  | true =>
+    simp only [after, hx, if_true] at hp
+    obtain ⟨j, hj, hn⟩ := h p hp
     exact ⟨j, by omega, hn⟩
-  · obtain ⟨j, _, h2, h3⟩ := namesBelow_filesFrom _ cs i p hp
-    exact ⟨j, h2, h3⟩
+  | false =>
+    simp only [after, hx, Bool.false_eq_true, if_false, List.mem_append] at hp
+    rcases hp with hp | hp
+    · obtain ⟨j, hj, hn⟩ := h p hp
+      exact ⟨j, by omega, hn⟩
+    · obtain ⟨j, _, h2, h3⟩ := namesBelow_filesFrom _ cs i p hp
+      exact ⟨j, h2, h3⟩
 
 theorem after_nil (sv : Saver) (i : Nat) : after sv i [] = sv := by
-  simp [after, infosFrom, filesFrom, startAfter]
+  obtain ⟨md, files, closed, exec, pending⟩ := sv
+  cases exec <;> simp [after, infosFrom, filesFrom, startAfter]
 
-theorem infosFrom_append (pfx : String) (a b : List Chunk) :
-    ∀ i, infosFrom pfx i (a ++ b) = infosFrom pfx i a ++ infosFrom pfx (i + a.length) b := by
+theorem infosFrom_append (hdr : Header) (x : Bool) (a b : List Chunk) :
+    ∀ i, infosFrom hdr x i (a ++ b) = infosFrom hdr x i a ++ infosFrom hdr x (i + a.length) b := by
   induction a with
   | nil => intro i; simp [infosFrom]
   | cons c a ih =>
@@ -133,7 +144,8 @@ theorem startAfter_append (a b : List Chunk) :
 
 theorem after_append (sv : Saver) (i : Nat) (a b : List Chunk) :
     after (after sv i a) (i + a.length) b = after sv i (a ++ b) := by
-  simp [after, infosFrom_append, filesFrom_append, startAfter_append, List.append_assoc]
+  cases hx : sv.exec <;>
+    simp [after, hx, infosFrom_append, filesFrom_append, startAfter_append, List.append_assoc]
 
 /-- `Saver.save` on an open saver whose files all belong to earlier chunk numbers -/
 theorem save_eq (sv : Saver) (c : Chunk) (i : Nat) (hc : sv.closed = false)
@@ -141,14 +153,19 @@ theorem save_eq (sv : Saver) (c : Chunk) (i : Nat) (hc : sv.closed = false)
   unfold Saver.save
   simp only [hc, Bool.false_eq_true, if_false]
   by_cases hr : c.rows.isEmpty = true
-  · by_cases hi : i = 0 <;>
-      simp [hr, hi, after, infosFrom, infoFor, filesFrom, startAfter, pure, Except.pure, hc, chunkInfoOf]
-  · by_cases hi : i = 0
-    · subst hi
-      simp [hr, after, infosFrom, infoFor, filesFrom, startAfter, pure, Except.pure, hc, chunkInfoOf,
-        writeFile_fresh hb]
-    · simp [hr, hi, after, infosFrom, infoFor, filesFrom, startAfter, pure, Except.pure, hc, chunkInfoOf,
-        writeFile_fresh hb]
+  · cases hx : sv.exec <;> by_cases hi : i = 0 <;>
+      simp [hr, hi, hx, after, infosFrom, infoFor, filesFrom, startAfter, pure, Except.pure, hc, chunkInfoOf]
+  · cases hx : sv.exec with
+    | true =>
+      by_cases hi : i = 0 <;>
+        simp [hr, hi, hx, after, infosFrom, infoFor, filesFrom, startAfter, pure, Except.pure, hc, chunkInfoOf]
+    | false =>
+      by_cases hi : i = 0
+      · subst hi
+        simp [hr, hx, after, infosFrom, infoFor, filesFrom, startAfter, pure, Except.pure, hc, chunkInfoOf,
+          writeFile_fresh hb]
+      · simp [hr, hi, hx, after, infosFrom, infoFor, filesFrom, startAfter, pure, Except.pure, hc, chunkInfoOf,
+          writeFile_fresh hb]
 
 /-- the per-chunk loop never fails on an open saver, and its effect is `after` -/
 theorem saveList_eq (cs : List Chunk) : ∀ (sv : Saver) (i : Nat), sv.closed = false →
@@ -224,16 +241,27 @@ theorem saveLoop_err (a0 : Int) (src : List Chunk) : ∀ (sv : Saver) (r : Rechu
 
 /-- metadata left by a successful `save_from` whose rechunker output was `out` -/
 def metaOf (hdr : Header) (out : List Chunk) : Meta :=
-  { hdr, chunks := infosFrom hdr.pfx 0 out, start := out.head?.map (·.start),
+  { hdr, chunks := infosFrom hdr false 0 out, start := out.head?.map (·.start),
     stop := out.getLast?.map (·.stop), writingEnded := true, exception := false }
 
-theorem infoFor_start (pfx : String) (i : Nat) (c : Chunk) : (infoFor pfx i c).start = c.start := by
-  unfold infoFor; split <;> rfl
-theorem infoFor_stop (pfx : String) (i : Nat) (c : Chunk) : (infoFor pfx i c).stop = c.stop := by
-  unfold infoFor; split <;> rfl
+/-- … and by one whose chunk writes went to an executor: the same, without `filesize` -/
+def metaOfExec (hdr : Header) (out : List Chunk) : Meta :=
+  { hdr, chunks := infosFrom hdr true 0 out, start := out.head?.map (·.start),
+    stop := out.getLast?.map (·.stop), writingEnded := true, exception := false }
 
-theorem infosFrom_getLast_stop (pfx : String) (cs : List Chunk) :
-    ∀ i, (infosFrom pfx i cs).getLast?.map (·.stop) = cs.getLast?.map (·.stop) := by
+theorem infoFor_start (hdr : Header) (x : Bool) (i : Nat) (c : Chunk) : (infoFor hdr x i c).start = c.start := by
+  unfold infoFor
+  split
+  · rfl
+  · split <;> rfl
+theorem infoFor_stop (hdr : Header) (x : Bool) (i : Nat) (c : Chunk) : (infoFor hdr x i c).stop = c.stop := by
+  unfold infoFor
+  split
+  · rfl
+  · split <;> rfl
+
+theorem infosFrom_getLast_stop (hdr : Header) (x : Bool) (cs : List Chunk) :
+    ∀ i, (infosFrom hdr x i cs).getLast?.map (·.stop) = cs.getLast?.map (·.stop) := by
   induction cs with
   | nil => intro i; simp [infosFrom]
   | cons c cs ih =>
@@ -259,6 +287,42 @@ theorem startAfter_zero (cs : List Chunk) : startAfter none 0 cs = cs.head?.map 
   | nil => rfl
   | cons c cs => simp [startAfter, pos]
 
+/-- metadata after a successful `save_from` (`x` = executor) -/
+def metaOfX (hdr : Header) (x : Bool) (out : List Chunk) : Meta :=
+  { hdr, chunks := infosFrom hdr x 0 out, start := out.head?.map (·.start),
+    stop := out.getLast?.map (·.stop), writingEnded := true, exception := false }
+
+/-- `Saver.close` (no exception around) on an open saver whose metadata is that of `out` saved from a
+fresh saver: start / end from the first / last entry, `writing_ended` -/
+theorem close_after (hdr : Header) (x : Bool) (out : List Chunk) (sv : Saver) (hc : sv.closed = false)
+    (hmd : sv.md = (after (Saver.init hdr x) 0 out).md) :
+    sv.close false = .ok { sv with closed := true, md := metaOfX hdr x out } := by
+  simp only [Saver.close, hc, Bool.false_eq_true, if_false, pure, Except.pure, hmd, metaOfX]
+  cases out with
+  | nil => simp [after, Saver.init, infosFrom, startAfter]
+  | cons c cs =>
+    have hl := infosFrom_getLast_stop hdr x (c :: cs) 0
+    have hne : infosFrom hdr x 0 (c :: cs) ≠ [] := by simp [infosFrom]
+    obtain ⟨l, hl'⟩ : ∃ l, (infosFrom hdr x 0 (c :: cs)).getLast? = some l := by
+      cases hg : (infosFrom hdr x 0 (c :: cs)).getLast? with
+      | none => exact absurd (List.getLast?_eq_none_iff.1 hg) hne
+      | some l => exact ⟨l, rfl⟩
+    rw [hl'] at hl
+    simp only [Option.map_some] at hl
+    simp only [after, Saver.init, List.nil_append, hl']
+    simp [infosFrom, infoFor_start, hl]
+
+/-- the source loop from a fresh saver (serial or executor): what the rechunker yields is saved -/
+theorem saveLoop_fresh (a0 : Int) (re : Bool) (hdr : Header) (x : Bool) (src : List Chunk) :
+    (∀ out, rechunkAll a0 ⟨re, hdr.runId.startsWith "_", none⟩ src = .ok out →
+      saveLoop a0 (Saver.init hdr x) ⟨re, hdr.runId.startsWith "_", none⟩ 0 src = (after (Saver.init hdr x) 0 out, none)) ∧
+    (∀ e, rechunkAll a0 ⟨re, hdr.runId.startsWith "_", none⟩ src = .error e →
+      (saveLoop a0 (Saver.init hdr x) ⟨re, hdr.runId.startsWith "_", none⟩ 0 src).2 = some e) := by
+  have hc0 : (Saver.init hdr x).closed = false := rfl
+  have hb0 : NamesBelow (Saver.init hdr x).md.hdr.pfx 0 (Saver.init hdr x).files := by
+    intro p hp; simp [Saver.init] at hp
+  exact ⟨fun out h => saveLoop_ok a0 src _ _ 0 out hc0 hb0 h, fun e h => saveLoop_err a0 src _ _ 0 e hc0 hb0 h⟩
+
 /-- **Closed form of `save_from`.**  Whatever the rechunk flag: the saver leaves exactly one
 chunk_info per chunk that comes out of the rechunker (numbered 0, 1, …), one file per non-empty
 one, overall start / end of the first / last of them, `writing_ended`, no `exception`; and it
@@ -267,12 +331,10 @@ theorem saveAll_eq (a0 : Int) (re : Bool) (hdr : Header) (src : List Chunk) :
     saveAll a0 re hdr src =
       (rechunkAll a0 ⟨re, hdr.runId.startsWith "_", none⟩ src).map
         (fun out => (metaOf hdr out, filesFrom hdr.pfx 0 out)) := by
-  have hc0 : (Saver.init hdr).closed = false := rfl
-  have hb0 : NamesBelow (Saver.init hdr).md.hdr.pfx 0 (Saver.init hdr).files := by
-    intro p hp; simp [Saver.init] at hp
+  obtain ⟨hok, herr⟩ := saveLoop_fresh a0 re hdr false src
   cases h : rechunkAll a0 ⟨re, hdr.runId.startsWith "_", none⟩ src with
   | error e =>
-    have h2 := saveLoop_err a0 src _ _ 0 e hc0 hb0 h
+    have h2 := herr e h
     simp only [saveAll, saveFrom, Except.map]
     generalize saveLoop a0 (Saver.init hdr) ⟨re, hdr.runId.startsWith "_", none⟩ 0 src = res at h2
     obtain ⟨sv, e'⟩ := res
@@ -282,23 +344,42 @@ theorem saveAll_eq (a0 : Int) (re : Bool) (hdr : Header) (src : List Chunk) :
     · simp [hcl, throw, throwThe, MonadExceptOf.throw]
     · simp [hcl, Saver.close, throw, throwThe, MonadExceptOf.throw, pure, Except.pure]
   | ok out =>
-    have h2 := saveLoop_ok a0 src _ _ 0 out hc0 hb0 h
+    have h2 := hok out h
     simp only [saveAll, saveFrom, Except.map, h2]
     have hcl : (after (Saver.init hdr) 0 out).closed = false := rfl
-    simp only [hcl, Bool.false_eq_true, if_false, Saver.close, Option.isSome_none, pure, Except.pure]
-    cases out with
-    | nil => simp [after, Saver.init, infosFrom, filesFrom, startAfter, metaOf]
-    | cons c cs =>
-      have hl := infosFrom_getLast_stop hdr.pfx (c :: cs) 0
-      have hne : infosFrom hdr.pfx 0 (c :: cs) ≠ [] := by simp [infosFrom]
-      obtain ⟨l, hl'⟩ : ∃ l, (infosFrom hdr.pfx 0 (c :: cs)).getLast? = some l := by
-        cases hg : (infosFrom hdr.pfx 0 (c :: cs)).getLast? with
-        | none => exact absurd (List.getLast?_eq_none_iff.1 hg) hne
-        | some l => exact ⟨l, rfl⟩
-      rw [hl'] at hl
-      simp only [Option.map_some] at hl
-      simp only [after, Saver.init, List.nil_append, hl', metaOf]
-      simp [infosFrom, infoFor_start, hl]
+    simp only [hcl, Bool.false_eq_true, if_false, Option.isSome_none,
+      close_after hdr false out _ hcl rfl, pure, Except.pure]
+    simp [metaOf, metaOfX, after, Saver.init]
+
+/-- files after the pending writes `pend` completed in the order `order` -/
+def completed (order : List Nat) (pend : Files) : Files :=
+  (order.filterMap (pend[·]?)).foldl (fun fs p => writeFile fs p.1 p.2) []
+
+/-- **Closed form of `save_from` with an executor**: the same metadata without `filesize`, and the
+files of the non-empty output chunks written in completion order. -/
+theorem saveAllExec_eq (a0 : Int) (re : Bool) (hdr : Header) (src : List Chunk) (order : List Nat) :
+    saveAllExec a0 re hdr src order =
+      (rechunkAll a0 ⟨re, hdr.runId.startsWith "_", none⟩ src).map
+        (fun out => (metaOfExec hdr out, completed order (filesFrom hdr.pfx 0 out))) := by
+  obtain ⟨hok, herr⟩ := saveLoop_fresh a0 re hdr true src
+  cases h : rechunkAll a0 ⟨re, hdr.runId.startsWith "_", none⟩ src with
+  | error e =>
+    have h2 := herr e h
+    simp only [saveAllExec, saveFromExec, Except.map]
+    generalize saveLoop a0 (Saver.init hdr true) ⟨re, hdr.runId.startsWith "_", none⟩ 0 src = res at h2
+    obtain ⟨sv, e'⟩ := res
+    simp only at h2
+    subst h2
+    by_cases hcl : sv.closed = true
+    · simp [completeWrites, hcl, throw, throwThe, MonadExceptOf.throw]
+    · simp [completeWrites, hcl, Saver.close, throw, throwThe, MonadExceptOf.throw, pure, Except.pure]
+  | ok out =>
+    have h2 := hok out h
+    simp only [saveAllExec, saveFromExec, Except.map, h2]
+    have hcl : (completeWrites order (after (Saver.init hdr true) 0 out)).closed = false := rfl
+    simp only [hcl, Bool.false_eq_true, if_false, Option.isSome_none,
+      close_after hdr true out _ hcl rfl, pure, Except.pure]
+    simp [metaOfExec, metaOfX, completeWrites, completed, after, Saver.init]
 
 /-! ### the loader on what the saver wrote -/
 
@@ -404,24 +485,38 @@ theorem mkChunk_restore (hdr : Header) (rid : String) (c : Chunk) (h : storableB
         have h4 : ¬ e > sp := by omega
         simp [mkChunk, bind, Except.bind, pure, Except.pure, h1', h2', h3, hl, h4, restore, sortRuns, runsOverlap, hs1, hs2]
 
-theorem infoFor_fields (pfx : String) (i : Nat) (c : Chunk) :
-    (infoFor pfx i c).i = i ∧ (infoFor pfx i c).n = c.rows.length ∧ (infoFor pfx i c).runId = c.runId ∧
-    (infoFor pfx i c).subruns = c.subruns ∧
-    (infoFor pfx i c).firstTime = c.rows.head?.map (·.time) ∧ (infoFor pfx i c).firstEnd = c.rows.head?.map (·.endt) ∧
-    (infoFor pfx i c).lastTime = c.rows.getLast?.map (·.time) ∧ (infoFor pfx i c).lastEnd = c.rows.getLast?.map (·.endt) ∧
-    (infoFor pfx i c).filename = if c.rows.isEmpty then none else some (chunkFilename pfx i) := by
-  unfold infoFor; split <;> simp_all [chunkInfoOf]
+theorem infoFor_fields (hdr : Header) (x : Bool) (i : Nat) (c : Chunk) :
+    (infoFor hdr x i c).i = i ∧ (infoFor hdr x i c).n = c.rows.length ∧ (infoFor hdr x i c).runId = c.runId ∧
+    (infoFor hdr x i c).subruns = c.subruns ∧
+    (infoFor hdr x i c).firstTime = c.rows.head?.map (·.time) ∧ (infoFor hdr x i c).firstEnd = c.rows.head?.map (·.endt) ∧
+    (infoFor hdr x i c).lastTime = c.rows.getLast?.map (·.time) ∧ (infoFor hdr x i c).lastEnd = c.rows.getLast?.map (·.endt) ∧
+    (infoFor hdr x i c).filename = if c.rows.isEmpty then none else some (chunkFilename hdr.pfx i) := by
+  unfold infoFor
+  split
+  · simp_all [chunkInfoOf]
+  · split <;> simp_all [chunkInfoOf]
+
+/-- byte sizes of an entry: `nbytes = n · itemsize`; `filesize` recorded iff the chunk has rows and the
+write was synchronous, and then it is the size of the file written -/
+theorem infoFor_sizes (hdr : Header) (x : Bool) (i : Nat) (c : Chunk) :
+    (infoFor hdr x i c).nbytes = c.rows.length * hdr.itemsize ∧
+    (infoFor hdr x i c).filesize =
+      if c.rows.isEmpty || x then none else some (blobSize c.rows).val := by
+  unfold infoFor
+  split
+  · simp_all [chunkInfoOf]
+  · split <;> simp_all [chunkInfoOf]
 
 /-- the loader on the chunk_info of a storable chunk whose file (if any) is in place -/
-theorem loadChunk_infoFor (md : Meta) (files : Files) (rid : String) (i : Nat) (c : Chunk)
+theorem loadChunk_infoFor (md : Meta) (files : Files) (rid : String) (x : Bool) (i : Nat) (c : Chunk)
     (h : storableB rid c = true)
     (hf : c.rows ≠ [] → readFile files (chunkFilename md.hdr.pfx i) = some c.rows) :
-    loadChunk md files (infoFor md.hdr.pfx i c) = .ok (restore md.hdr rid c) := by
+    loadChunk md files (infoFor md.hdr x i c) = .ok (restore md.hdr rid c) := by
   have hmk := mkChunk_restore md.hdr rid c h
   simp only [storableB, Bool.and_eq_true, decide_eq_true_eq, beq_iff_eq, Bool.or_eq_true,
     Bool.not_eq_true'] at h
   obtain ⟨⟨⟨_, hrid⟩, _⟩, hsup⟩ := h
-  obtain ⟨_, hn, hr, hs, _, _, _, _, hfn⟩ := infoFor_fields md.hdr.pfx i c
+  obtain ⟨_, hn, hr, hs, _, _, _, _, hfn⟩ := infoFor_fields md.hdr x i c
   unfold loadChunk
   rw [infoFor_start, infoFor_stop, hn, hr, hs, hfn, hrid]
   have hfin : ['_'] <+: rid.toList → ¬ c.subruns = none := by
@@ -437,35 +532,45 @@ theorem loadChunk_infoFor (md : Meta) (files : Files) (rid : String) (i : Nat) (
     simp [he, hlen, hf he, bind, Except.bind, pure, Except.pure, hmk]
     exact hfin
 
-theorem mapM_loadChunk (md : Meta) (files : Files) (rid : String) (cs : List Chunk) : ∀ (i : Nat),
+theorem mapM_loadChunk (md : Meta) (files : Files) (rid : String) (x : Bool) (cs : List Chunk) : ∀ (i : Nat),
     (∀ c ∈ cs, storableB rid c = true) →
     (∀ k c, cs[k]? = some c → c.rows ≠ [] → readFile files (chunkFilename md.hdr.pfx (i + k)) = some c.rows) →
-    (infosFrom md.hdr.pfx i cs).mapM (loadChunk md files) = .ok (cs.map (restore md.hdr rid)) := by
+    (infosFrom md.hdr x i cs).mapM (loadChunk md files) = .ok (cs.map (restore md.hdr rid)) := by
   induction cs with
   | nil => intro i _ _; simp [infosFrom, pure, Except.pure]
   | cons c cs ih =>
     intro i hs hf
-    have h1 := loadChunk_infoFor md files rid i c (hs c (by simp)) (by simpa using hf 0 c (by simp))
+    have h1 := loadChunk_infoFor md files rid x i c (hs c (by simp)) (by simpa using hf 0 c (by simp))
     have h2 := ih (i + 1) (fun c' hc' => hs c' (by simp [hc'])) (by
       intro k c' hk hne
       have := hf (k + 1) c' (by simpa using hk) hne
       rwa [show i + (k + 1) = i + 1 + k by omega] at this)
     simp [infosFrom, List.mapM_cons, h1, h2, bind, Except.bind, pure, Except.pure]
 
+/-- loading the metadata of `out` (serial or executor saver) from ANY directory in which the file of
+every non-empty chunk can be read under its name -/
+theorem loadAll_of_readable (hdr : Header) (rid : String) (x : Bool) (out : List Chunk) (files : Files)
+    (hne : out ≠ []) (hs : ∀ c ∈ out, storableB rid c = true)
+    (hf : ∀ k c, out[k]? = some c → c.rows ≠ [] → readFile files (chunkFilename hdr.pfx k) = some c.rows) :
+    loadAll (metaOfX hdr x out) files = .ok (out.map (restore hdr rid)) := by
+  unfold loadAll
+  have : (metaOfX hdr x out).chunks.isEmpty = false := by
+    cases out with
+    | nil => exact absurd rfl hne
+    | cons c cs => simp [metaOfX, infosFrom]
+  simp only [this, Bool.false_eq_true, if_false]
+  exact mapM_loadChunk (metaOfX hdr x out) files rid x out 0 hs (by
+    intro k c hk hr
+    have := hf k c hk hr
+    simpa [metaOfX] using this)
+
 /-- **Loading what `save_from` wrote.** -/
 theorem loadAll_saved (hdr : Header) (rid : String) (out : List Chunk) (hne : out ≠ [])
     (hs : ∀ c ∈ out, storableB rid c = true) :
-    loadAll (metaOf hdr out) (filesFrom hdr.pfx 0 out) = .ok (out.map (restore hdr rid)) := by
-  unfold loadAll
-  have : (metaOf hdr out).chunks.isEmpty = false := by
-    cases out with
-    | nil => exact absurd rfl hne
-    | cons c cs => simp [metaOf, infosFrom]
-  simp only [this, Bool.false_eq_true, if_false]
-  have := mapM_loadChunk (metaOf hdr out) (filesFrom hdr.pfx 0 out) rid out 0 hs (by
+    loadAll (metaOf hdr out) (filesFrom hdr.pfx 0 out) = .ok (out.map (restore hdr rid)) :=
+  loadAll_of_readable hdr rid false out _ hne hs (by
     intro k c hk hr
-    exact readFile_filesFrom hdr.pfx out 0 k c hk hr)
-  exact this
+    simpa using readFile_filesFrom hdr.pfx out 0 k c hk hr)
 
 /-- with rechunking off the rechunker is the identity on streams -/
 theorem rechunkAll_off (a0 : Int) (sup : Bool) (s : List Chunk) :
@@ -475,8 +580,8 @@ theorem rechunkAll_off (a0 : Int) (sup : Bool) (s : List Chunk) :
   | cons c cs ih =>
     simp [rechunkAll, Rechunker.receive, ih, bind, Except.bind, pure, Except.pure]
 
-theorem infosFrom_getElem? (pfx : String) (cs : List Chunk) : ∀ (i k : Nat),
-    (infosFrom pfx i cs)[k]? = cs[k]?.map (infoFor pfx (i + k)) := by
+theorem infosFrom_getElem? (hdr : Header) (x : Bool) (cs : List Chunk) : ∀ (i k : Nat),
+    (infosFrom hdr x i cs)[k]? = cs[k]?.map (infoFor hdr x (i + k)) := by
   induction cs with
   | nil => intro i k; simp [infosFrom]
   | cons c cs ih =>
@@ -487,7 +592,7 @@ theorem infosFrom_getElem? (pfx : String) (cs : List Chunk) : ∀ (i k : Nat),
       simp only [infosFrom, List.getElem?_cons_succ, ih]
       rw [show i + 1 + k = i + (k + 1) by omega]
 
-theorem infosFrom_length (pfx : String) (cs : List Chunk) : ∀ i, (infosFrom pfx i cs).length = cs.length := by
+theorem infosFrom_length (hdr : Header) (x : Bool) (cs : List Chunk) : ∀ i, (infosFrom hdr x i cs).length = cs.length := by
   induction cs with
   | nil => intro i; rfl
   | cons c cs ih => intro i; simp [infosFrom, ih]
@@ -572,5 +677,268 @@ theorem ok_of_toOption {α : Type} {e : Except Err α} {a : α} (h : e.toOption 
   cases e with
   | error _ => simp [Except.toOption] at h
   | ok b => simp [Except.toOption] at h; rw [h]
+
+/-! ### directories as maps: order of the entries does not matter -/
+
+def names (fs : Files) : List String := fs.map (·.1)
+
+theorem readFile_eq_none_iff (fs : Files) (fn : String) : readFile fs fn = none ↔ fn ∉ names fs := by
+  induction fs with
+  | nil => simp [readFile, names]
+  | cons p fs ih =>
+    by_cases h : p.1 = fn
+    · simp [readFile, names, List.find?_cons, h]
+    · have h' : (p.1 == fn) = false := by simpa using h
+      simp only [readFile, List.find?_cons, h', names, List.map_cons, List.mem_cons] at ih ⊢
+      rw [ih]
+      constructor
+      · intro hh hc; rcases hc with hc | hc
+        · exact h hc.symm
+        · exact hh hc
+      · intro hh hc; exact hh (Or.inr hc)
+
+theorem readFile_eq_some_iff (fs : Files) (hn : (names fs).Nodup) (fn : String) (rows : List Row) :
+    readFile fs fn = some rows ↔ (fn, rows) ∈ fs := by
+  induction fs with
+  | nil => simp [readFile]
+  | cons p fs ih =>
+    simp only [names, List.map_cons, List.nodup_cons] at hn
+    by_cases h : p.1 = fn
+    · have : ∀ r, (fn, r) ∉ fs := by
+        intro r hr
+        exact hn.1 (by rw [h]; exact List.mem_map.2 ⟨(fn, r), hr, rfl⟩)
+      obtain ⟨a, b⟩ := p
+      simp only at h
+      subst h
+      simp [readFile, List.find?_cons, this]
+      constructor
+      · intro hh; exact hh ▸ rfl
+      · intro hh; exact hh ▸ rfl
+    · have h' : (p.1 == fn) = false := by simpa using h
+      have ih' := ih hn.2
+      simp only [readFile, List.find?_cons, h'] at ih' ⊢
+      rw [ih']
+      simp only [List.mem_cons]
+      constructor
+      · intro hh; exact Or.inr hh
+      · intro hh
+        rcases hh with hh | hh
+        · exact absurd (by rw [← hh]) h
+        · exact hh
+
+/-- two directories with the same entries in another order read the same -/
+theorem readFile_perm {fs fs' : Files} (h : fs.Perm fs') (hn : (names fs).Nodup) (fn : String) :
+    readFile fs fn = readFile fs' fn := by
+  have hn' : (names fs').Nodup := (h.map (fun (p : String × List Row) => p.1)).nodup hn
+  cases hr : readFile fs fn with
+  | none =>
+    rw [readFile_eq_none_iff] at hr
+    symm
+    rw [readFile_eq_none_iff]
+    intro hc
+    exact hr ((h.map (fun (p : String × List Row) => p.1)).symm.subset hc)
+  | some rows =>
+    rw [readFile_eq_some_iff fs hn] at hr
+    symm
+    rw [readFile_eq_some_iff fs' hn']
+    exact h.subset hr
+
+theorem foldl_writeFile_fresh (l : Files) : ∀ (fs : Files), (names (fs ++ l)).Nodup →
+    l.foldl (fun fs p => writeFile fs p.1 p.2) fs = fs ++ l := by
+  induction l with
+  | nil => intro fs _; simp
+  | cons p l ih =>
+    intro fs hn
+    have hfresh : writeFile fs p.1 p.2 = fs ++ [p] := by
+      unfold writeFile
+      congr 1
+      rw [List.filter_eq_self]
+      intro q hq
+      simp only [bne_iff_ne, ne_eq]
+      intro heq
+      simp only [names, List.map_append, List.map_cons] at hn
+      have := (List.nodup_append.1 hn).2.2 q.1 (List.mem_map.2 ⟨q, hq, rfl⟩) p.1 (by simp)
+      exact this heq
+    simp only [List.foldl_cons, hfresh]
+    rw [ih (fs ++ [p]) (by simpa [List.append_assoc] using hn)]
+    simp [List.append_assoc]
+
+theorem filterMap_getElem?_range {α : Type} (l : List α) : (List.range l.length).filterMap (l[·]?) = l := by
+  induction l with
+  | nil => rfl
+  | cons a t ih =>
+    rw [List.length_cons, List.range_succ_eq_map, List.filterMap_cons]
+    simp only [List.getElem?_cons_zero, List.filterMap_map]
+    congr 1
+
+theorem names_filesFrom_nodup (pfx : String) (cs : List Chunk) : ∀ i, (names (filesFrom pfx i cs)).Nodup := by
+  induction cs with
+  | nil => intro i; simp [filesFrom, names]
+  | cons c cs ih =>
+    intro i
+    simp only [filesFrom]
+    split
+    · exact ih (i + 1)
+    · simp only [names, List.map_cons, List.nodup_cons]
+      refine ⟨?_, ih (i + 1)⟩
+      intro hm
+      obtain ⟨q, hq, hqe⟩ := List.mem_map.1 hm
+      obtain ⟨j, h1, _, h3⟩ := namesBelow_filesFrom pfx cs (i + 1) q hq
+      rw [h3] at hqe
+      have := chunkFilename_inj hqe
+      omega
+
+/-- pending writes completing in any order leave the same directory, up to the order of its entries -/
+theorem completed_perm (order : List Nat) (pend : Files) (h : order.Perm (List.range pend.length))
+    (hn : (names pend).Nodup) : (completed order pend).Perm pend := by
+  have hq : (order.filterMap (pend[·]?)).Perm pend := by
+    have := h.filterMap (pend[·]?)
+    rwa [filterMap_getElem?_range] at this
+  unfold completed
+  have hnq : (names ([] ++ order.filterMap (pend[·]?))).Nodup := by
+    simpa [names] using (hq.map (fun (p : String × List Row) => p.1)).symm.nodup hn
+  rw [foldl_writeFile_fresh _ [] hnq]
+  simpa using hq
+
+theorem filesFrom_length (pfx : String) (cs : List Chunk) : ∀ i,
+    (filesFrom pfx i cs).length = (cs.filter (fun c => !c.rows.isEmpty)).length := by
+  induction cs with
+  | nil => intro i; rfl
+  | cons c cs ih =>
+    intro i
+    simp only [filesFrom, List.filter_cons]
+    split <;> simp_all
+
+/-! ### thread-pool loading -/
+
+theorem resolveInOrder_map (md : Meta) (files : Files) (l : List ChunkInfo) :
+    resolveInOrder (l.map (loadChunk md files)) = l.mapM (loadChunk md files) := by
+  induction l with
+  | nil => rfl
+  | cons a l ih => simp [resolveInOrder, List.mapM_cons, ih]
+
+/-- futures submitted per chunk and resolved in chunk order give exactly the serial loader's answer
+(same chunks, or the same first error) -/
+theorem loadAllExec_eq (md : Meta) (files : Files) : loadAllExec md files = loadAll md files := by
+  unfold loadAllExec loadAll submitAll
+  rw [resolveInOrder_map]
+
+/-! ### sub-run annotations -/
+
+theorem spansOk_facts : ∀ (s : Runs), spansOkB s = true →
+    s.Pairwise (fun a b => a.start < b.start) ∧ runsOverlap s = false ∧ (∀ a ∈ s, a.start < a.stop) ∧
+    (∀ h, s.head? = some h → ∀ a ∈ s, h.start ≤ a.start)
+  | [], _ => by simp [runsOverlap]
+  | [a], h => by simp_all [spansOkB, runsOverlap]
+  | a :: b :: rest, h => by
+    simp only [spansOkB, Bool.and_eq_true, decide_eq_true_eq] at h
+    obtain ⟨⟨h1, h2⟩, h3⟩ := h
+    obtain ⟨ih1, ih2, ih3, ih4⟩ := spansOk_facts (b :: rest) h3
+    have hb := ih4 b rfl
+    refine ⟨?_, ?_, ?_, ?_⟩
+    · rw [List.pairwise_cons]
+      refine ⟨?_, ih1⟩
+      intro x hx
+      have := hb x hx
+      omega
+    · simp only [runsOverlap, ih2, Bool.or_false, decide_eq_false_iff_not]; omega
+    · intro x hx
+      simp only [List.mem_cons] at hx
+      rcases hx with rfl | hx
+      · exact h1
+      · exact ih3 x (by simpa using hx)
+    · intro h hh x hx
+      simp only [List.head?_cons, Option.some.injEq] at hh
+      subst hh
+      simp only [List.mem_cons] at hx
+      rcases hx with rfl | hx
+      · omega
+      · have := hb x (by simpa using hx); omega
+
+/-- sub-run spans of positive length in time order survive the json key sort + the constructor's
+sort by start, whatever the order of their ids -/
+theorem restorable_of_spansOk (s : Runs) (h : spansOkB s = true) : restorableRuns (some s) = true := by
+  obtain ⟨hp, hov, _, _⟩ := spansOk_facts s h
+  simp only [restorableRuns, Bool.and_eq_true, beq_iff_eq, Bool.not_eq_true', hov, and_true]
+  let le : Run → Run → Bool := fun a b => decide (a.start ≤ b.start)
+  have hperm : (sortRuns (jsonRuns s)).Perm s :=
+    (List.mergeSort_perm _ _).trans (List.mergeSort_perm _ _)
+  have hsorted : (sortRuns (jsonRuns s)).Pairwise (fun a b => le a b = true) :=
+    List.pairwise_mergeSort (le := le)
+      (by intro a b c; simp only [le, decide_eq_true_eq]; omega)
+      (by intro a b; simp only [le, Bool.or_eq_true, decide_eq_true_eq]; omega) _
+  have hs2 : s.Pairwise (fun a b => le a b = true) :=
+    hp.imp (by intro a b hab; simp only [le, decide_eq_true_eq]; omega)
+  refine List.Perm.eq_of_pairwise (le := fun a b => le a b = true) ?_ hsorted hs2 hperm
+  intro a b ha hb hab hba
+  simp only [le, decide_eq_true_eq] at hab hba
+  have ha' : a ∈ s := hperm.subset ha
+  -- equal starts inside a strictly increasing list: the same element
+  have key : ∀ (l : List Run), l.Pairwise (fun a b => a.start < b.start) → ∀ x ∈ l, ∀ y ∈ l, x.start = y.start → x = y := by
+    intro l hl
+    induction l with
+    | nil => intro x hx; simp at hx
+    | cons z l ih =>
+      rw [List.pairwise_cons] at hl
+      intro x hx y hy hxy
+      simp only [List.mem_cons] at hx hy
+      rcases hx with rfl | hx <;> rcases hy with rfl | hy
+      · rfl
+      · have := hl.1 y hy; omega
+      · have := hl.1 x hx; omega
+      · exact ih hl.2 x hx y hy hxy
+  exact key s hp a ha' b hb (by omega)
+
+/-- metadata as an executor saver writes it: no `filesize` in any entry -/
+def Meta.withoutFilesize (m : Meta) : Meta :=
+  { m with chunks := m.chunks.map (fun i => { i with filesize := none }) }
+
+theorem infoFor_exec (hdr : Header) (i : Nat) (c : Chunk) :
+    infoFor hdr true i c = { infoFor hdr false i c with filesize := none } := by
+  unfold infoFor
+  split
+  · simp [chunkInfoOf]
+  · simp [chunkInfoOf]
+
+theorem infosFrom_exec (hdr : Header) (cs : List Chunk) : ∀ i,
+    infosFrom hdr true i cs = (infosFrom hdr false i cs).map (fun i => { i with filesize := none }) := by
+  induction cs with
+  | nil => intro i; rfl
+  | cons c cs ih => intro i; simp [infosFrom, ih, infoFor_exec]
+
+theorem metaOfExec_eq (hdr : Header) (out : List Chunk) : metaOfExec hdr out = (metaOf hdr out).withoutFilesize := by
+  simp [metaOfExec, metaOf, Meta.withoutFilesize, infosFrom_exec]
+
+/-- every entry of the saved metadata is the entry of some written chunk -/
+theorem mem_infosFrom {hdr : Header} {x : Bool} {cs : List Chunk} {info : ChunkInfo}
+    (h : info ∈ infosFrom hdr x 0 cs) : ∃ k c, cs[k]? = some c ∧ info = infoFor hdr x k c := by
+  obtain ⟨k, hk⟩ := List.mem_iff_getElem?.1 h
+  rw [infosFrom_getElem?] at hk
+  cases hc : cs[k]? with
+  | none => simp [hc] at hk
+  | some c =>
+    simp only [hc, Option.map_some, Option.some.injEq, Nat.zero_add] at hk
+    exact ⟨k, c, hc, hk.symm⟩
+
+theorem storable_of_annotated {rid : String} {c : Chunk} (h : annotatedOkB rid c = true) : storableB rid c = true := by
+  simp only [annotatedOkB, Bool.and_eq_true, decide_eq_true_eq, beq_iff_eq] at h
+  obtain ⟨⟨⟨⟨h0, h1⟩, h2⟩, h3⟩, h4⟩ := h
+  cases hs : c.subruns with
+  | none => simp [hs] at h4
+  | some sub =>
+    simp only [hs] at h4
+    have := restorable_of_spansOk sub h4
+    simp [storableB, h0, h1, h2, h3, hs, this]
+
+theorem mergeSort_pair {α : Type} (le : α → α → Bool) (a b : α) :
+    [a, b].mergeSort le = if le a b then [a, b] else [b, a] := by
+  simp [List.mergeSort, List.MergeSort.Internal.splitInTwo, List.merge]
+
+/-- the `subruns` setter of `Chunk.__init__` refuses overlapping spans -/
+theorem mkChunk_rejects_overlap (dt k : String) (rid : Option String) (a b : Int) (rows : List Row) (s : Runs)
+    (sup : Option Runs) (tg : Nat) (h : runsOverlap (sortRuns s) = true) :
+    mkChunk dt k rid a b rows (some s) sup tg = .error Err.valueError := by
+  unfold mkChunk
+  simp only [h, if_true, bind, Except.bind, throw, throwThe, MonadExceptOf.throw]
 
 end Strax.Storage
